@@ -470,7 +470,7 @@ class Table:
                 return boolean("CMP-zero-auto: with autoconvert the base-unit magnitude is compared with 0 [TZ "
                                "test_offset_autoconvert_equal_zero, test_offset_autoconvert_gt_zero]",
                                f(self.root_value(L), 0))
-            if sl in (ABS, DELTA, MULT):
+            if sl in (ABS, DELTA, MULT) and self.dims(L):
                 return boolean("CMP-zero-plain: a multiplicative quantity compares its magnitude with 0 [TZ "
                                "neighbouring test_gt_zero / test_equal_zero]", f(L.x, 0))
             return unspecified(f"{sl} {op} 0")
